@@ -190,6 +190,23 @@ func typeInv(t types.Type, v *Term, alloc *Term) *Term {
 		if u.Info()&types.IsString != 0 {
 			return And(Ge(strLen(v), IntLit(0)), Le(strLen(v), BigLit("9223372036854775807")))
 		}
+	case *types.Struct:
+		if v.Sort.DT == nil || u.NumFields() > 24 {
+			return True
+		}
+		var parts []*Term
+		for i := 0; i < u.NumFields(); i++ {
+			f := u.Field(i)
+			if f.Name() == "_" {
+				continue
+			}
+			switch f.Type().Underlying().(type) {
+			case *types.Struct:
+				continue // one level only
+			}
+			parts = append(parts, typeInv(f.Type(), Sel(v, fieldSelName(f)), alloc))
+		}
+		return And(parts...)
 	}
 	return True
 }
